@@ -267,7 +267,7 @@ class TypedNode(Node):
             if deep is None:
                 deep = True
             topnodes = child._root.children
-            if isinstance(before, (int, TypedNode)) or before is True:
+            if before is not None and before is not False:
                 topnodes.reverse()
             for n in topnodes:
                 self.add_child(n, before=before, deep=deep)
@@ -304,12 +304,15 @@ class TypedNode(Node):
         else:
             node = factory(kind, child, parent=self, data_id=data_id, node_id=node_id)
 
+        if before is True:
+            before = 0  # prepend
+        elif before is False:
+            before = None  # append
+
         children = self._children
         if children is None:
             assert before in (None, True, int, False)
             self._children = [node]
-        elif before is True:  # prepend
-            children.insert(0, node)
         elif isinstance(before, int):
             children.insert(before, node)
         elif before:
